@@ -307,4 +307,31 @@ theorem F13_repaired_code_accepts_exact_limit :
   rw [handle_clean nullParser f13Req [] rfl ⟨rfl, rfl⟩ (by simp [tooLarge, f13Req])]
   rfl
 
+/-- **LimitedReadCloser, any usage.**  Whatever the chunking of the wrapped reader and
+    whatever buffer sizes are passed: once the (clean) stream has been read to an error
+    and the reader is closed, exactly min(size, limit) bytes were delivered and Close
+    reports ErrReadLimitExceeded exactly when the stream is longer than the limit —
+    in particular not for a stream of exactly the limit. -/
+theorem C32_lrc_holdsOn (src : Src) (limit : Int) (steps : List Step) :
+    holdsOnL limit src.data.length (src.term == .eof) steps
+      (((LRC.new src limit).runSteps steps).2.map obsOfRes) = true := by
+  unfold holdsOnL
+  by_cases h : limit < 0 ∨ src.term ≠ .eof
+  · rcases h with h | h <;> simp [h]
+  · have h1 : ¬ limit < 0 := fun x => h (Or.inl x)
+    have h2 : src.term = .eof := by
+      cases ht : src.term <;> simp_all
+    simp only [h1, decide_false, h2, beq_self_eq_true, Bool.not_true, Bool.or_self, Bool.false_eq_true,
+      ↓reduceIte]
+    have hi : LInv limit src.data.length (LRC.new src limit) 0 false := by
+      refine ⟨rfl, rfl, h2, by simp [LRC.new]; omega, by simp [LRC.new], by simp [LRC.new], ?_, by simp⟩
+      intro hf; simp [LRC.new] at hf
+    have := lrc_run limit src.data.length steps _ 0 false hi
+    split
+    · rfl
+    · next n c hm =>
+      rw [hm] at this
+      simp only at this
+      simp [this.1, this.2]
+
 end Influx.Props.C32
